@@ -17,6 +17,7 @@ import (
 	"strconv"
 	"strings"
 
+	"github.com/mosaicnetworks/babble/src/common"
 	"github.com/mosaicnetworks/babble/src/crypto/keys"
 	hg "github.com/mosaicnetworks/babble/src/hashgraph"
 	"github.com/mosaicnetworks/babble/src/peers"
@@ -166,6 +167,7 @@ type hnode struct {
 	commitLog  []int           // block indexes in delivery order
 	commitBody map[int]string  // body hash at delivery
 	batched    bool            // fed with InsertEvent only, passes run separately
+	preBlocks  int             // blocks delivered in an earlier life, before Reset
 }
 
 func newNode(d *dag, id int, cache int, badgerDir string) *hnode {
@@ -840,6 +842,31 @@ func (nd *hnode) processedRounds() []int {
 		}
 	}
 	return rs
+}
+
+// dumpDag: comparison with the declarative model (Babble.Dag); only meaningful for a
+// static validator set and passes after every insertion.
+func (nd *hnode) dumpDag(c *Case) {
+	nev, nw, nf := 0, 0, 0
+	for _, g := range nd.order {
+		e, err := nd.store.GetEvent(g.ev.Hex())
+		if err != nil {
+			return // evicted events: the comparison needs the whole view
+		}
+		nev++
+		if e.VerifRound() == nil {
+			continue
+		}
+		if ri, err := nd.store.GetRound(*e.VerifRound()); err == nil {
+			if re, ok := ri.VerifCreated()[g.ev.Hex()]; ok && re.Witness {
+				nw++
+				if re.Famous == int(common.True) {
+					nf++
+				}
+			}
+		}
+	}
+	c.Op(fmt.Sprintf("HG dag %d", nd.id), fmt.Sprintf("O dag ok ev=%d wit=%d famous=%d", nev, nw, nf))
 }
 
 func (nd *hnode) dumpAll(c *Case) {
